@@ -329,3 +329,129 @@ def c02_content_family(tier):
             out.append(s)
 
     return out
+
+
+# ---- C04 family: stalled synchronized consumer ----------------------------------------------------------------------------
+
+def c04_family(tier):
+    out  = []
+    full = tier == 'thorough'
+    N    = 400      # "the source offers frames indefinitely"
+
+    def stall(k, ms):
+        return [('stall_from', k, ms)]
+
+    for k in ([0, 1, 2, 3] if full else [0, 2]):
+        for S in ([1500, 3000] if full else [1500]):
+            for ps, pc in ([(20, 0), (0, 20), (30, 30)] if full else [(20, 0), (0, 20)]):
+                post = stall(k, S) + ([('slow', pc)] if pc else [])
+                kw   = dict(quiet=S + 800, horizon=S + 1500)
+                # sole consumer
+                out.append(timely(scn(f'sole/k{k}/S{S}/p{ps}-{pc}', [src(N, required='snk', period=ps), sink('snk', ['src'], post)]), **kw))
+                # one of two consumers
+                out.append(timely(scn(f'oneof2/k{k}/S{S}/p{ps}-{pc}', [src(N, required='snk,other', period=ps), sink('snk', ['src'], post),
+                                                                       sink('other', ['src;main>x'])]), **kw))
+                # consumer behind a relay
+                out.append(timely(scn(f'relay/k{k}/S{S}/p{ps}-{pc}', [src(N, required='mid', period=ps), relay('mid', ['src'], required='snk'),
+                                                                      sink('snk', ['mid'], post)]), **kw))
+
+    # stall longer than the connection timeout, consumer not a required output: producer may move on (nothing to check but order)
+    for k in [1]:
+        out.append(timely(scn(f'oneof2-timeout/k{k}', [src(N, required='other', period=30), sink('snk', ['src'], stall(k, 2500)),
+                                                       sink('other', ['src;main>x'])], conn_timeout=1000), quiet=3500, horizon=5000))
+
+    for s in out:
+        s['stall'] = True
+        s['dev_window'] = (0, 1100)     # deviations are enumerated at every choice point of the first 1100 ms (start-up, stall start, settling)
+
+    return out
+
+
+# ---- C05 family: ephemeral listeners ---------------------------------------------------------------------------------------
+
+def c05_family(tier, n):
+    out  = []
+    full = tier == 'thorough'
+    lis_behs = {'fast': [], 'slow250': [('slow', 250)], 'stall': [('stall_from', 1, 60_000)]}
+
+    def base(period):
+        return [src(n, required='snk', period=period), sink('snk', ['src'])]
+
+    for period in ([0, 40] if full else [40]):
+        for mix in (['?'], ['??'], ['?', '??']):
+            for lb in lis_behs:
+                fs = base(period)
+
+                for i, m in enumerate(mix):
+                    fs.append(sink(f'lis{i}', [f'src{m}'], lis_behs[lb]))
+
+                out.append(timely(scn(f'listen/{"+".join(mix)}/{lb}/p{period}', fs), quiet=700))
+
+            # listener that never starts / starts late
+            fs = base(period) + [{**sink('lis0', [f'src{mix[0]}']), 'start_at': 150}]
+            out.append(timely(scn(f'listen/{"+".join(mix)}/late/p{period}', fs), quiet=700))
+
+    # listeners with explicit topics on a two-topic publisher (completeness of ephemeral sets)
+    for m in ['?', '??']:
+        fs = [src(n, required='snk', period=40, topics=['main', 'aux']), sink('snk', ['src']), sink('lis0', [f'src{m};main;aux>x'], [('slow', 90)]),
+              sink('lis1', [f'src{m}'], [('slow', 130)])]
+        out.append(timely(scn(f'listen2topics/{m}', fs), quiet=700))
+
+    # the docstring's shape reduced: A -> B -> F(sync) ; A -?-> D -> F as '?' source
+    for db in ['pass', 'slow150']:
+        fs = [src(n, 'A', required='B', period=40), relay('B', ['A'], required='F'), relay('D', ['A?'], db),
+              sink('F', ['B', 'D?;main>side'])]
+        out.append(timely(scn(f'ephemeral-rejoin/{db}', fs), quiet=800))
+
+    # killed listener (hard kill at every step of the reference run)
+    for m in ['?', '??']:
+        fs = base(40) + [sink('lis0', [f'src{m}'])]
+        s  = timely(scn(f'listen-killed/{m}', fs), quiet=700)
+        s['faults'] = {'kinds': ['kill'], 'victims': ['lis0'], 'restart_delays': [None], 'budget': 1, 'when': 'any' if full else 'next'}
+        out.append(s)
+
+    return out
+
+
+# ---- C07 family: load balancing ----------------------------------------------------------------------------------------------
+
+def balance(n, speeds, split_period=10, watcher=False, join_ops=None):
+    k  = len(speeds)
+    fs = [{**src(n, 'spl', period=split_period), 'outputs': k, 'config': {'outputs_balance': True}}]
+
+    for i, sp in enumerate(speeds):
+        fs.append(relay(f'w{i}', [f'spl.{i}' if i else 'spl'], [('slow', sp)] if sp else []))
+
+    fs.append({**sink('join', [f'w{i}' for i in range(k)], join_ops or []), 'config': {'sources_balance': True}})
+
+    if watcher:
+        fs.append(sink('watch', ['w0??']))
+
+    return fs
+
+
+def c07_family(tier, n):
+    import itertools
+
+    out  = []
+    full = tier == 'thorough'
+    sp   = [0, 40, 130]
+
+    for speeds in itertools.product(sp, repeat=2):
+        out.append(scn(f'bal2/{speeds}', balance(n, speeds)))
+
+    for speeds in (itertools.product(sp, repeat=3) if full else [(0, 0, 0), (0, 40, 130), (130, 0, 40), (40, 40, 0)]):
+        out.append(scn(f'bal3/{tuple(speeds)}', balance(n, speeds)))
+
+    for speeds in [(0, 0, 0, 0), (40, 40, 40, 130)]:
+        out.append(scn(f'bal4/{speeds}', balance(n, speeds)))
+
+    out.append(scn('bal2/fast-splitter', balance(n, (40, 130), split_period=0)))
+    out.append(scn('bal2/slow-splitter', balance(n, (0, 40), split_period=40)))
+    out.append(scn('bal2/watcher', balance(n, (40, 0), watcher=True)))
+    out.append(scn('bal2/slow-joiner', balance(n, (0, 40), join_ops=[('slow', 60)])))
+
+    for s in out:
+        s['quiet_ms'] = 600
+
+    return out
